@@ -739,6 +739,7 @@ func (c *Client) Sync() am.Time {
 
 	// process
 	c.clockSet(resp.Time, resp.QueueTick, resp.MachTick)
+	verifPoint(c, "cli:synced")
 
 	return c.NetMach.machTime
 }
@@ -953,6 +954,7 @@ func (c *Client) clockUpdate(update *MsgSrvUpdate, queueLocked bool) bool {
 
 		// request full sync
 		netMach.clockMx.Unlock()
+		verifPoint(c, "cli:mismatch")
 		return false
 	}
 
@@ -966,6 +968,7 @@ func (c *Client) clockUpdate(update *MsgSrvUpdate, queueLocked bool) bool {
 	c.log("clockUpdate diff OK t%d q%d", mTime.Sum(nil), qTick)
 	// will unlock itself TODO pass mutType?
 	c.netMachInt.UpdateClock(mTime, qTick, machTick)
+	verifPoint(c, "cli:applied")
 
 	return true
 }
